@@ -5,7 +5,7 @@
      code 2 = the observed behaviour violates the property predicate spec_C06 (Model/Tree.v). *)
 From Coq Require Import List NArith Bool Arith.
 Import ListNotations.
-From AnySync Require Export Model.Tree.
+From AnySync Require Export Model.Tree Model.TreeReject.
 
 Definition mode_eqb (a b : mode) : bool :=
   match a, b with
@@ -46,9 +46,34 @@ Fixpoint run_ot (G : list change) (o : otree) (h : list step) : bool :=
   | _ :: _ => false
   end.
 
+(* level 3: object trees built with the REAL validator; [bad] = ids of the changes of G that fail validateChange.
+   A batch that attaches one of them is rejected and rolled back (Model/TreeReject.v); the same step kinds are
+   used: a rejected delivery is an SRaw with ok = false. *)
+Fixpoint run_otv (G : list change) (bad : list N) (o : otree) (h : list step) : bool :=
+  match h with
+  | [] => true
+  | SRaw batch path ok m heads iter stored :: r =>
+      let '(o', res) := ot_add_raw_v bad o (find_all G batch) path in
+      match res with
+      | AddErr => negb ok
+      | AddOk m' hs' => ok && mode_eqb m m' && list_eqb heads hs'
+      end && obs_ot o' heads iter stored && run_otv G bad o' r
+  | SReopen ok heads iter stored :: r =>
+      let o' := reopen o in
+      ok && obs_ot o' heads iter stored && run_otv G bad o' r
+  | _ :: _ => false
+  end.
+
+(* nothing invalid is ever presented or stored *)
+Definition no_bad_shown (bad : list N) (hists : list (list step)) : bool :=
+  forallb (forallb (fun s => let o := obs_of s in
+                             negb (any_bad bad (ob_iter o)) && negb (any_bad bad (ob_heads o))
+                             && match ob_stored o with Some st => negb (any_bad bad st) | None => true end)) hists.
+
 Inductive case :=
 | CTree (G : list change) (hists : list (list step))
-| COT (G : list change) (hists : list (list step)).
+| COT (G : list change) (hists : list (list step))
+| COTV (G : list change) (bad : list N) (hists : list (list step)).
 
 Definition model_ok (c : case) : bool :=
   match c with
@@ -58,12 +83,18 @@ Definition model_ok (c : case) : bool :=
       | [] => false
       | root :: _ => forallb (run_ot G (ot_init root)) hists
       end
+  | COTV G bad hists =>
+      match G with
+      | [] => false
+      | root :: _ => forallb (run_otv G bad (ot_init root)) hists
+      end
   end.
 
 Definition spec_ok (c : case) : bool :=
   match c with
   | CTree G hists => spec_C06 G hists
   | COT G hists => spec_C06 G hists
+  | COTV G bad hists => spec_C06 G hists && spec_C06_rej G hists && no_bad_shown bad hists
   end.
 
 Fixpoint check_from (i : N) (l : list case) : list (N * N) :=
